@@ -17,7 +17,7 @@ TECHNIQUE = 'property-based testing (Hypothesis): generated models, per-step wor
 LEVEL_TEXT = 'Generated-input search: every (task, step) pair of every generated run is balanced against an independent contribution model; not a proof.'
 LEVEL_NOTE = "Deterministic skills (sd 0). Allocation at each step is read from the live 'allocated' snapshot (needed to tell a WORKING task from a READY one on project-wide absence steps, where both are logged READY)."
 
-CFG = gen.Cfg(unit_time=6, warm_modes=["morph", "graft", "append", "nolog"], warm=3, facilities=True, float_mode=5, max_time=[40, 80], abs_p=2, abs_size=6, abs_max=12)
+CFG = gen.Cfg(unit_time=6, warm_modes=["morph", "graft", "append", "nolog", "cutrerun"], warm=3, facilities=True, float_mode=5, max_time=[40, 80], abs_p=2, abs_size=6, abs_max=12)
 
 
 def strategy(tier):
